@@ -812,7 +812,8 @@ def run_impl1(sess, case):
             failed = tobj is not None and tobj[0] == 0 and tobj[1] == 0    # n / N: no (other) match
         if obs["status"] == 1 and tobj is None:
             failed = False      # the text-object function itself raised
-        return canon(obs, tobj, failed and m["tok"] is not None), obs, tobj, failed, alone
+        # (an operator that was cancelled got no text object: the model reports none either)
+        return canon(obs, tobj, failed and m["tok"] is not None and tobj is not None), obs, tobj, failed, alone
     if case[0] == "S":
         res, recs = run_session(sess, case[1], case[2], case[3])
         return res, recs, None, False, None
@@ -1081,8 +1082,11 @@ def thorough_(chk):
 
 
 def obj_failed(c):
+    """object level: an empty exclusive object must be a no-op for the operators that go through
+    TextObject.cut / the range guard; the line operators are cancelled by the wrapper, which an
+    operator function called directly does not pass through"""
     s, e, ty = c[4]
-    return ty == 0 and s == e
+    return ty == 0 and s == e and OPGROUP[OPS[c[3]][2]] != "lines"
 
 
 def in_bounds(c):
